@@ -109,6 +109,10 @@ def gcdlcm_case(vals, conv):
             g, l = nt.gcd(*vals), nt.lcm(*vals)
         elif conv == "list":
             g, l = nt.gcd(list(vals)), nt.lcm(list(vals))
+        elif conv == "iter":
+            g, l = nt.gcd(iter(list(vals))), nt.lcm(iter(list(vals)))
+        elif conv == "generator":
+            g, l = nt.gcd(v for v in vals), nt.lcm(v for v in vals)
         else:
             g, l = nt.gcd(tuple(vals)), nt.lcm(tuple(vals))
     except Exception as e:
@@ -125,7 +129,7 @@ def shard_gcd(arg):
         tuples = [(f,)] + [(f, b) for b in range(1, top + 1)] + \
             [(f, b, c) for b in range(1, top + 1) for c in range(1, top + 1)]
         for vals in tuples:
-            for conv in ("args", "list", "tuple"):
+            for conv in ("args", "list", "tuple", "iter", "generator"):
                 sh.n += 1
                 if len(vals) > 1:
                     sh.nt += 1
